@@ -335,6 +335,16 @@ func runC18draw(t *rapid.T) {
 		ops = append(ops[:at], append([]op{o}, ops[at:]...)...)
 	}
 	w0, h0 := rapid.IntRange(1, 12).Draw(t, "w"), rapid.IntRange(1, 6).Draw(t, "h")
+	// further SetSize calls after the first: to drawn sizes, or (Target) so
+	// that a wide rune on the screen ends up in the last column, and back
+	type sizeStep struct {
+		W, H   int
+		Target bool
+	}
+	var more []sizeStep
+	for i, n := 0, rapid.IntRange(0, 3).Draw(t, "nmoresizes"); i < n; i++ {
+		more = append(more, sizeStep{rapid.IntRange(1, 12).Draw(t, "mw"), rapid.IntRange(1, 6).Draw(t, "mh"), rapid.Bool().Draw(t, "mtarget")})
+	}
 	hx.Arm("C18")
 	defer hx.Disarm()
 	os.Setenv("LC_ALL", "en_US.UTF-8")
@@ -519,6 +529,55 @@ func runC18draw(t *rapid.T) {
 		if fail == nil {
 			if len(resizes) != n0+1 || resizes[len(resizes)-1] != fmt.Sprintf("%dx%d", nw, nh) {
 				mk("C18/resize", "SetSize(%d,%d) + Show produced resize events %v, expected exactly one %dx%d", nw, nh, resizes[n0:], nw, nh)
+			}
+		}
+		// more size changes: the logical contents survive in the overlap
+		// (a wide rune cut off by a narrower window is still there when the
+		// window grows again), and every Show renders them by the same rule
+		for _, st := range more {
+			if fail != nil {
+				break
+			}
+			nw, nh := st.W, st.H
+			ow := m.W
+			if st.Target {
+				for i := range m.Cells {
+					if c := &m.Cells[i]; lm.Width(c.R) == 2 && i%m.W+1 < m.W {
+						nw = i%m.W + 1
+						if i/m.W >= nh {
+							nh = i/m.W + 1
+						}
+						break
+					}
+				}
+			}
+			sizes := [][2]int{{nw, nh}}
+			if st.Target {
+				sizes = append(sizes, [2]int{ow, nh})
+			}
+			for _, sz := range sizes {
+				ss.SetSize(sz[0], sz[1])
+				m.Resize(sz[0], sz[1])
+				for y := 0; y < m.H && fail == nil; y++ {
+					for x := 0; x < m.W; x++ {
+						c := m.At(x, y)
+						if c.Unknown || c.Locked {
+							continue
+						}
+						r, comb, _, _ := ss.GetContent(x, y)
+						wr := c.R
+						if wr < ' ' || lm.Width(wr) == 0 {
+							continue // (stored as given or as a blank: not this check's business)
+						}
+						if r != wr || string(comb) != string(c.Comb) {
+							mk("C18/resize", "after SetSize(%d,%d) GetContent(%d,%d) = %q+%q, the cell was given %q+%q and has been inside the window ever since", sz[0], sz[1], x, y, r, string(comb), wr, string(c.Comb))
+							break
+						}
+					}
+				}
+				ss.Show()
+				m.Painted(false)
+				compare(fmt.Sprintf("after SetSize(%d,%d) and Show", sz[0], sz[1]))
 			}
 		}
 		ss.Fini()
